@@ -617,6 +617,12 @@ def make_variant(tree, family, rng):
         add_mjx(t, rng, count=2)
         add_quotes(t, rng, p=0.5)
         add_chars(t, rng, count=4)
+    elif family == "outer":
+        # comments / processing instructions only in front of and behind the outermost element
+        for _ in range(rng.randint(1, 3)):
+            kind = "comment" if rng.random() < 0.6 else "pi"
+            cls, payload = _pick_payload(COMMENTS if kind == "comment" else PIS, rng)
+            add_mark(t, ["outer", rng.choice([0, 1]), kind, payload, cls])
     elif family == "adv-ns":
         add_ns(t, rng, adversarial=True)
     elif family == "adv-comment":
